@@ -17,20 +17,45 @@ FUNCTIONS = ['hotxlfp.grammarparser.parser:FormulaParser.p_expression_number', '
              'hotxlfp.grammarparser.parser:FormulaParser.p_cell', 'hotxlfp.helper.number:to_number',
              'hotxlfp.grammarparser.lexer:t_WHITESPACE', 'hotxlfp.grammarparser.lexer:t_STRING', 'hotxlfp.grammarparser.lexer:t_FUNCTION',
              'hotxlfp.grammarparser.lexer:t_NUMBER', 'hotxlfp.grammarparser.lexer:t_VARIABLE', 'hotxlfp.grammarparser.lexer:t_RELATIVE_CELL',
-             'hotxlfp.grammarparser.lexer:t_error', 'hotxlfp.parser:Parser.call_cell_value']
+             'hotxlfp.grammarparser.lexer:t_error', 'hotxlfp.parser:Parser.call_cell_value', 'hotxlfp.parser:Parser.call_range_value',
+             'hotxlfp.helper.cell:extract_label', 'hotxlfp.helper.cell:to_label', 'hotxlfp.helper.cell:column_label_to_index',
+             'hotxlfp.helper.cell:column_index_to_label', 'hotxlfp.grammarparser.lexer:t_ABSOLUTE_CELL',
+             'hotxlfp.grammarparser.lexer:t_MIXED_CELL']
 RULE = ('(lex) token streams of seeded strings over token-rich and arbitrary Unicode alphabets, real ply lexer vs model lexer; '
         '(slots) every present/absent pattern of 1..6 argument slots x 3 separators (complete) + seeded longer ones, through a '
         'recording function; (lit) numeric literals of the five forms with seeded digit strings up to 40 digits, quoted '
         'literals with seeded contents (ASCII, controls, accented/CJK, backslashes) in both quote styles; (ws) white space '
         'inserted at token boundaries of generated formulas; (sep) the three separator styles; (arr) array literal shapes; '
-        '(case) cell labels in both cases. Non-trivial = accepted by the parser.')
+        '(case) cell references in every form, each rendered as written and with the references upper-cased, evaluated '
+        'with three kinds of host listeners for callCellValue / callRangeValue (an unbounded integer sheet looked up by '
+        'row.index / col.index; the same sheet looked up by the label text through a strict upper-case reader; an echo of '
+        'every field received: label, index / label / is_absolute of row and column): complete for two seeded one-letter '
+        'corners (lower / upper case of each corner x the 16 `$` patterns x the 4 corner orders, bare and inside SUM) and '
+        'for the 8 spellings of a single cell; seeded formulas of 1..3 references (cells and ranges, columns of 1..3 letters '
+        'with every letter in its own case, rows up to 1048576, random `$`, second corner on any side of the first) used '
+        'bare, inside SUM(..), G(.., ..) and integer + / *; the same range written twice in different cases inside one '
+        'call; fixed regression witnesses (SUM(a1:b2), SUM(c3:a1), G(a1:B2, A1:b2), b2*SUM(a1:A3), ...). The model '
+        'evaluates the formula as written (`eval`) in an environment that holds values only under the normalised '
+        'upper-case labels; its record and its cell / range events (labels, indices, `$` flags) are compared with what '
+        'the listeners recorded. Non-trivial = accepted by the parser.')
 TRUSTED = ['the regular-expression engine `re` (each token rule has a hand-written matcher; the generated pattern texts are pinned by Props/C05)',
-           'float(text) is correctly rounded (a decimal literal is compared with the correctly rounded double of the rational it spells)']
+           'float(text) is correctly rounded (a decimal literal is compared with the correctly rounded double of the rational it spells)',
+           '(case) the harness\'s own reading of a reference (column letters in bijective base 26 regardless of case, row = number - 1, '
+           'a range = the rectangle spanned by its two corners, smaller index first) and its integer sum over the sheet, against '
+           'which the values of the grid- and label-addressed hosts are compared; SUM of integers and the registered function G '
+           '(returns its arguments) as carriers of the values']
 ASSUMPTIONS = ['white space is never inserted between a function name and its parenthesis, nor inside a token',
                'n% is computed as n*0.01 in floating point: compared within 1 ulp of n/100, for n below 2^53',
                'a literal power of at least 2^1024 is #NUM! (bounded evaluation time, C01): precisely, a^b with a > 1 and '
                'floor(log2 a)*b >= 1024 must answer #NUM! without a result; every other a^b (all those below 2^1024, and some '
-               'up to 2^2046 such as 3^647) must be the exact integer', 'lone surrogate code points (not representable as Lean Char) are excluded from the lexer comparison']
+               'up to 2^2046 such as 3^647) must be the exact integer', 'lone surrogate code points (not representable as Lean Char) are excluded from the lexer comparison',
+               '"cell references are case-insensitive" is read as: a formula and the same formula with every cell reference '
+               '(single cell or either corner of a range, any `$` pattern, any corner order) upper-cased have the same outcome '
+               'record whatever the host listeners compute from what they receive - so the label, row.index, row.label, '
+               'row.is_absolute, col.index, col.label and col.is_absolute delivered to callCellValue / callRangeValue must not depend '
+               'on the letter case (a host echoing all these fields makes any difference visible in the record); and, for hosts that '
+               'address an integer sheet by index or by label, the outcome is the value / selection / sum of the cells that the '
+               'upper-case spelling denotes', 'row numbers are written without leading zeros and are at least 1 in the (case) formulas']
 EXHAUSTIVE = {'quick': True, 'thorough': True}
 
 SEPS = [',', ';', '\\']
@@ -60,10 +85,6 @@ def parser():
         p = hotxlfp.Parser()
         p.set_function('F', lambda *a: (_got.append(list(a)), list(a))[1])
         p.set_function('G', lambda *a: list(a))
-
-        def on_cell(cell, setter):
-            setter('cell:' + cell.label)
-        p.on('callCellValue', on_cell)
         _p[0] = p
     return _p[0]
 
@@ -74,10 +95,7 @@ MODEL_ENV = None
 def model_env():
     global MODEL_ENV
     if MODEL_ENV is None:
-        labels = {}
-        for lab in ['A1', 'XFD9', '$B$2', 'C$3', '$D4', 'ZZ10']:
-            labels[lab] = 'cell:' + lab
-        MODEL_ENV = fx.env_wire(fns={'F': '(args)', 'G': '(args)'}, cells=labels)
+        MODEL_ENV = fx.env_wire(fns={'F': '(args)', 'G': '(args)'})
     return MODEL_ENV
 
 
@@ -153,9 +171,8 @@ def cases(rng, ctx):
         r1 = [str(rng.randrange(0, 50)) for _ in range(rng.randrange(2, 5))]
         r2 = [str(rng.randrange(0, 50)) for _ in range(rng.randrange(1, 5))]
         out.append({'kind': 'rows', 'r1': r1, 'r2': r2})
-    # (case)
-    for lab in ['A1', 'XFD9', '$B$2', 'C$3', '$D4', 'ZZ10']:
-        out.append({'kind': 'case', 'label': lab})
+    # (case) references in every form, in every letter case
+    out.extend(case_cases(rng, sc))
     return out
 
 
@@ -195,13 +212,16 @@ def formulas(c):
         return ['{%s;%s}' % (','.join(c['r1']), ','.join(c['r2'])), '{%s;%s}' % ('\\'.join(c['r1']), '\\'.join(c['r2'])),
                 'G(%s;%s)' % (','.join(c['r1']), ','.join(c['r2']))]
     if k == 'case':
-        return [c['label'], c['label'].lower(), 'G(%s,%s)' % (c['label'].lower(), c['label'])]
+        return [node_text(c['shape'], c['refs'], False), node_text(c['shape'], c['refs'], True)]
     return []
 
 
 def request(c):
     if c['kind'] == 'lex':
         return 'lex ' + enc_str(c['s'])
+    if c['kind'] == 'case':
+        # the model evaluates the formula AS WRITTEN in an environment that knows only the normalised (upper-case) labels
+        return 'eval ' + enc_str(formulas(c)[0]) + ' ' + case_env(c)
     fs = formulas(c)
     env = c04.ENV if c['kind'] == 'ws' else model_env()
     return 'c04.batch ' + ' '.join(enc_str(f) for f in fs) + ' ' + env
@@ -228,6 +248,8 @@ def lex_real(s):
 def impl(c):
     if c['kind'] == 'lex':
         return lex_real(c['s'])
+    if c['kind'] == 'case':
+        return case_impl(c)
     p = c04.real_parser() if c['kind'] == 'ws' else parser()
     res = []
     for f in formulas(c):
@@ -241,6 +263,8 @@ def agree(c, impl_ans, model_ans):
     if c['kind'] == 'lex':
         return impl_ans == model_ans
     m = fx.parse_sexp(model_ans)
+    if c['kind'] == 'case':
+        return case_agree(c, impl_ans, m)
     if len(m) != len(impl_ans):
         return False
     for (f, rec, got), mm in zip(impl_ans, m):
@@ -321,12 +345,368 @@ def oracle(c, impl_ans):
                 return '%r evaluates to %r; expected the two rows %r' % (f, rec, want)
         return None
     if k == 'case':
-        lab = c['label']
-        (f1, r1, _), (f2, r2, _), (f3, r3, _) = impl_ans
-        if r1 != r2 or r1['result'] != 'cell:' + lab.upper() or r3['result'] != ['cell:' + lab.upper()] * 2:
-            return 'cell reference case matters: %r -> %r, %r -> %r, %r -> %r' % (f1, r1, f2, r2, f3, r3)
-        return None
+        return case_oracle(c, impl_ans)
     return None
+
+
+# ------------------------------------------------------------------ (case) cell references in every form and letter case
+#
+# A case is  {'kind': 'case', 'mode': m, 'salt': n, 'refs': [ref…], 'shape': node}.
+#   ref    = [corner] (a single cell) or [corner, corner] (a range `corner:corner`)
+#   corner = [column absolute 0/1, column letters AS WRITTEN (any mixture of cases), row absolute 0/1, row number >= 1]
+#   node   = ['ref', i] | ['sum', i] (`SUM(ref i)`) | ['g', node…] (`G(node,…)`) | ['add', node, node] | ['mul', node, node]
+# The two formulas of a case are the shape rendered with the references as written and with every reference upper-cased.
+# Listener modes (what the host's callCellValue / callRangeValue listeners answer):
+#   'grid'  : the cells of an unbounded sheet, looked up by `row.index` / `col.index` of the cell(s) received
+#   'label' : the same sheet, looked up by the `label` text of the cell(s) received, read by the harness's own strict
+#             reader (upper-case letters only, as a host keyed by 'B2' would)
+#   'echo'  : a text spelling out every field received (label, and index / label / is_absolute of row and column)
+
+CASE_MODES = ['grid', 'label', 'echo']
+HOSTS = {'grid': 'host sheet addressed by row.index / col.index', 'label': 'host sheet addressed by the label text',
+         'echo': 'host answering with every field it receives'}
+CASE_AREA_CAP = 4096
+_STRICT_LABEL = None
+
+
+def sheet_value(salt, r, c):
+    """the unbounded sheet: an integer for every cell with non-negative coordinates, nothing elsewhere"""
+    if not isinstance(r, int) or not isinstance(c, int) or isinstance(r, bool) or isinstance(c, bool) or r < 0 or c < 0:
+        return None
+    return ((r + 1) * 7919 + (c + 1) * 104729 + salt * 31) % 1999 - 500
+
+
+def sheet_block(salt, r1, c1, r2, c2):
+    if (r2 - r1 + 1) * (c2 - c1 + 1) > CASE_AREA_CAP:
+        return 'too-big:%r,%r,%r,%r' % (r1, c1, r2, c2)
+    return [[sheet_value(salt, r, cc) for cc in range(c1, c2 + 1)] for r in range(r1, r2 + 1)]
+
+
+def col_index_of(letters):
+    """the harness's own reading of column letters (bijective base 26, letter case irrelevant): 'A' -> 0, 'AA' -> 26"""
+    n = 0
+    for ch in letters:
+        n = n * 26 + ('abcdefghijklmnopqrstuvwxyz'.index(ch.lower()) + 1)
+    return n - 1
+
+
+def col_letters_of(idx):
+    s = ''
+    n = idx + 1
+    while n > 0:
+        n, r = divmod(n - 1, 26)
+        s = 'ABCDEFGHIJKLMNOPQRSTUVWXYZ'[r] + s
+    return s
+
+
+def strict_label(label):
+    """(row index, column index) of a label a host would use as a key: `$`? UPPER-CASE letters `$`? digits; else None"""
+    global _STRICT_LABEL
+    import re
+    if _STRICT_LABEL is None:
+        _STRICT_LABEL = re.compile(r'\A\$?([A-Z]+)\$?([1-9][0-9]*)\Z')
+    m = _STRICT_LABEL.match(label) if isinstance(label, str) else None
+    if m is None:
+        return None
+    return int(m.group(2)) - 1, col_index_of(m.group(1))
+
+
+def corner_text(k, upper):
+    return ('$' if k[0] else '') + (k[1].upper() if upper else k[1]) + ('$' if k[2] else '') + str(k[3])
+
+
+def ref_text(ref, upper):
+    return ':'.join(corner_text(k, upper) for k in ref)
+
+
+def node_text(node, refs, upper):
+    t = node[0]
+    if t == 'ref':
+        return ref_text(refs[node[1]], upper)
+    if t == 'sum':
+        return 'SUM(%s)' % ref_text(refs[node[1]], upper)
+    if t == 'g':
+        return 'G(%s)' % ','.join(node_text(x, refs, upper) for x in node[1:])
+    if t in ('add', 'mul'):
+        return '(%s%s%s)' % (node_text(node[1], refs, upper), '+' if t == 'add' else '*', node_text(node[2], refs, upper))
+    raise ValueError(node)
+
+
+def corner_parts(k):
+    """what the corner denotes: (row part, column part), each (index, label text, is_absolute)"""
+    return (k[3] - 1, str(k[3]), bool(k[2])), (col_index_of(k[1]), k[1].upper(), bool(k[0]))
+
+
+def compose(row, col):
+    return ('$' if col[2] else '') + col_letters_of(col[0]) + ('$' if row[2] else '') + str(row[0] + 1)
+
+
+def denotes(ref):
+    """the cell / the two normalised corners the reference denotes, whatever its letter case:
+    ('cell', label, row, col) or ('range', label1, row1, col1, label2, row2, col2)"""
+    if len(ref) == 1:
+        row, col = corner_parts(ref[0])
+        return ('cell', corner_text(ref[0], True), row, col)
+    (ra, ca), (rb, cb) = corner_parts(ref[0]), corner_parts(ref[1])
+    r1, r2 = (ra, rb) if ra[0] <= rb[0] else (rb, ra)
+    c1, c2 = (ca, cb) if ca[0] <= cb[0] else (cb, ca)
+    return ('range', compose(r1, c1), r1, c1, compose(r2, c2), r2, c2)
+
+
+def echo_text(ev):
+    def pl(q):
+        return '%r/%s/%r' % (q[0], q[1], q[2])
+    if ev[0] == 'cell':
+        return 'cell:%s|%s|%s' % (ev[1], pl(ev[2]), pl(ev[3]))
+    return 'range:%s|%s|%s:%s|%s|%s' % (ev[1], pl(ev[2]), pl(ev[3]), ev[4], pl(ev[5]), pl(ev[6]))
+
+
+def host_value(mode, salt, ev):
+    """the answer of the host's listener to the event it received (ev as recorded by the listener)"""
+    if mode == 'echo':
+        return echo_text(ev)
+    if ev[0] == 'cell':
+        if mode == 'grid':
+            return sheet_value(salt, ev[2][0], ev[3][0])
+        rc = strict_label(ev[1])
+        return ('no-such-label:%r' % (ev[1],)) if rc is None else sheet_value(salt, rc[0], rc[1])
+    if mode == 'grid':
+        r1, c1, r2, c2 = ev[2][0], ev[3][0], ev[5][0], ev[6][0]
+        if not all(isinstance(x, int) for x in (r1, c1, r2, c2)):
+            return 'no-such-coordinates:%r' % ((r1, c1, r2, c2),)
+        return sheet_block(salt, r1, c1, r2, c2)
+    a, b = strict_label(ev[1]), strict_label(ev[4])
+    if a is None or b is None:
+        return 'no-such-label:%r:%r' % (ev[1], ev[4])
+    return sheet_block(salt, a[0], a[1], b[0], b[1])
+
+
+def expected_ref_value(mode, salt, ref):
+    """the value the host holds for the cell(s) the reference denotes (computed without the implementation)"""
+    return host_value(mode, salt, denotes(ref))
+
+
+def expected_node(node, c):
+    """value of a shape over the sheet ('grid' / 'label' modes), by the harness's own arithmetic on integers"""
+    t = node[0]
+    if t == 'ref':
+        return expected_ref_value(c['mode'], c['salt'], c['refs'][node[1]])
+    if t == 'sum':
+        v = expected_ref_value(c['mode'], c['salt'], c['refs'][node[1]])
+        return v if len(c['refs'][node[1]]) == 1 else sum(x for row in v for x in row)
+    if t == 'g':
+        return [expected_node(x, c) for x in node[1:]]
+    a, b = expected_node(node[1], c), expected_node(node[2], c)
+    return a + b if t == 'add' else a * b
+
+
+_pc = [None]
+_cs = {'mode': 'echo', 'salt': 0, 'log': []}
+
+
+def case_parser():
+    if _pc[0] is None:
+        common.load_repo()
+        import hotxlfp
+        p = hotxlfp.Parser()
+        p.set_function('G', lambda *a: list(a))
+
+        def part(q):
+            return (q.index, q.label, q.is_absolute)
+
+        def on_cell(cell, done):
+            ev = ('cell', cell.label, part(cell.row), part(cell.col))
+            _cs['log'].append(ev)
+            done(host_value(_cs['mode'], _cs['salt'], ev))
+
+        def on_range(start, end, done):
+            ev = ('range', start.label, part(start.row), part(start.col), end.label, part(end.row), part(end.col))
+            _cs['log'].append(ev)
+            done(host_value(_cs['mode'], _cs['salt'], ev))
+        p.on('callCellValue', on_cell)
+        p.on('callRangeValue', on_range)
+        _pc[0] = p
+    return _pc[0]
+
+
+def case_impl(c):
+    p = case_parser()
+    res = []
+    for f in formulas(c):
+        _cs['mode'], _cs['salt'], _cs['log'] = c['mode'], c['salt'], []
+        r = p.parse(f)
+        res.append((f, r, list(_cs['log'])))
+    return res
+
+
+def case_env(c):
+    cells, ranges = {}, {}
+    for ref in c['refs']:
+        d = denotes(ref)
+        if d[0] == 'cell':
+            cells[d[1]] = host_value(c['mode'], c['salt'], d)
+        else:
+            ranges[(d[1], d[4])] = host_value(c['mode'], c['salt'], d)
+    return fx.env_wire(fns={'G': '(args)'}, cells=cells, ranges=ranges)
+
+
+def _event_agrees(m, e):
+    """an event of the model's log (parsed) vs an event recorded by the listeners"""
+    def pl(mp, q):
+        return (isinstance(mp, list) and len(mp) == 3 and isinstance(q[0], int) and int(mp[0]) == q[0] and
+                common.dec_str(mp[1]) == q[1] and (mp[2] == '1') == bool(q[2]))
+    if not isinstance(m, list) or not m or m[0] != e[0]:
+        return False
+    if e[0] == 'cell':
+        return len(m) == 4 and common.dec_str(m[1]) == e[1] and pl(m[2], e[2]) and pl(m[3], e[3])
+    return (len(m) == 7 and common.dec_str(m[1]) == e[1] and pl(m[2], e[2]) and pl(m[3], e[3]) and
+            common.dec_str(m[4]) == e[4] and pl(m[5], e[5]) and pl(m[6], e[6]))
+
+
+def case_agree(c, impl_ans, m):
+    """model: record and cell/range events of the formula as written; implementation: the same, recorded"""
+    if not (isinstance(m, list) and len(m) == 2):
+        return False
+    f, rec, log = impl_ans[0]
+    if fx.record_matches(m[0], rec) is not True:
+        return False
+    mlog = [e for e in m[1] if isinstance(e, list) and e and e[0] in ('cell', 'range')]
+    return len(mlog) == len(log) and all(_event_agrees(a, b) for a, b in zip(mlog, log))
+
+
+def same_record(r1, r2):
+    return r1 == r2 and repr(r1) == repr(r2)
+
+
+def case_oracle(c, impl_ans):
+    (fw, rw, _), (fu, ru, _) = impl_ans
+    if not same_record(rw, ru):
+        return ('cell references are not case-insensitive (%s): %r -> %s but %r -> %s'
+                % (HOSTS[c['mode']], fw, short(rw), fu, short(ru)))
+    if c['mode'] in ('grid', 'label'):
+        want = {'result': expected_node(c['shape'], c), 'error': None}
+        if not same_record(rw, want):
+            return ('%r (%s) evaluates to %s; the cells it denotes give %s'
+                    % (fw, HOSTS[c['mode']], short(rw), short(want)))
+    return None
+
+
+def _mk_corner(rng, col_idx, row, style):
+    letters = col_letters_of(col_idx)
+    if style == 'lower':
+        letters = letters.lower()
+    elif style == 'mixed':
+        letters = ''.join(rng.choice([ch.lower(), ch]) for ch in letters)
+    return [rng.randrange(2), letters, rng.randrange(2), row]
+
+
+def gen_ref(rng, mode, kind=None):
+    kind = kind or rng.choice(['cell', 'range', 'range'])
+    n = rng.choice([1, 1, 2, 2, 3])
+    col = rng.randrange({1: 0, 2: 26, 3: 702}[n], {1: 26, 2: 702, 3: 18278}[n])
+    row = rng.choice([rng.randrange(1, 10), rng.randrange(1, 100), rng.randrange(1, 1048577)])
+    styles = ['lower', 'upper', 'mixed', 'lower', 'mixed']
+    a = _mk_corner(rng, col, row, rng.choice(styles))
+    if kind == 'cell':
+        return [a]
+    if mode == 'echo' and rng.random() < 0.3:
+        col2, row2 = rng.randrange(0, 18278), rng.randrange(1, 1048577)       # anywhere (the echo does not enumerate cells)
+    else:
+        col2, row2 = max(0, col + rng.randrange(-4, 5)), max(1, row + rng.randrange(-4, 5))
+    return [a, _mk_corner(rng, col2, row2, rng.choice(styles))]
+
+
+def gen_shape(rng, mode, refs):
+    """a shape using every reference once; arithmetic only where the host's values are integers"""
+    def leaf(i):
+        is_cell = len(refs[i]) == 1
+        if mode == 'echo':
+            return ['ref', i]
+        if is_cell:
+            return rng.choice([['ref', i], ['ref', i], ['sum', i]])
+        return rng.choice([['ref', i], ['sum', i], ['sum', i]])
+
+    def is_int(node):
+        return node[0] in ('sum', 'add', 'mul') or (node[0] == 'ref' and len(refs[node[1]]) == 1)
+    nodes = [leaf(i) for i in range(len(refs))]
+    while len(nodes) > 1:
+        a, b = nodes.pop(0), nodes.pop(0)
+        if mode != 'echo' and is_int(a) and is_int(b) and rng.random() < 0.6:
+            nodes.append([rng.choice(['add', 'mul']), a, b])
+        else:
+            nodes.append(['g', a, b])
+    top = nodes[0]
+    if top[0] != 'g' and rng.random() < 0.3:
+        top = ['g', top]
+    return top
+
+
+# regression witnesses (formula as written; all of them also lie in the generated space)
+CASE_CORPUS = [
+    ('sum', ['a1:b2']), ('sum', ['A1:b2']), ('sum', ['a1:B2']), ('sum', ['$a$1:$c$3']), ('sum', ['$A$1:$c$3']), ('sum', ['b$2:$c3']),
+    ('sum', ['c3:a1']), ('sum', ['C3:a1']), ('ref', ['a1:b2']), ('ref', ['c1:a3']), ('ref', ['a3:C1']),
+    ('gg', ['a1:B2', 'A1:b2']), ('mulsum', ['b2', 'a1:A3']), ('addcells', ['a1', 'b2']), ('addcells', ['a1', 'B2']),
+    ('ref', ['a1']), ('ref', ['xfd9']), ('ref', ['$b$2']), ('ref', ['c$3']), ('ref', ['$d4']), ('ref', ['zz10']),
+    ('gg', ['xfd9', 'XFD9']), ('gg', ['$b$2', '$B$2']), ('sum', ['aa10:Ab12']), ('sum', ['xFa1:XFD3']), ('ref', ['zz10:ZY9']),
+]
+
+
+def _parse_written(text):
+    import re
+    ref = []
+    for part in text.split(':'):
+        m = re.match(r'\A(\$?)([A-Za-z]+)(\$?)([0-9]+)\Z', part)
+        ref.append([1 if m.group(1) else 0, m.group(2), 1 if m.group(3) else 0, int(m.group(4))])
+    return ref
+
+
+def case_cases(rng, sc):
+    out = []
+    # fixed witnesses, under every kind of host
+    for what, texts in CASE_CORPUS:
+        refs = [_parse_written(t) for t in texts]
+        shape = {'sum': ['sum', 0], 'ref': ['ref', 0], 'gg': ['g', ['ref', 0], ['ref', 1]],
+                 'mulsum': ['mul', ['ref', 0], ['sum', 1]], 'addcells': ['add', ['ref', 0], ['ref', 1]]}[what]
+        for mode in CASE_MODES:
+            if mode == 'echo' and what in ('mulsum', 'addcells', 'sum'):
+                shape_m = ['g'] + [['ref', i] for i in range(len(refs))]
+            else:
+                shape_m = shape
+            out.append({'kind': 'case', 'mode': mode, 'salt': 1, 'refs': refs, 'shape': shape_m})
+    # complete: two seeded one-letter corners; every letter case of each corner x every `$` pattern of each corner x
+    # the four corner orders, bare and inside SUM, for every kind of host
+    ca, cb = sorted(rng.sample(range(26), 2))
+    ra, rb = sorted(rng.sample(range(1, 10), 2))
+    salt = rng.randrange(1000)
+    for (c1, r1, c2, r2) in [(ca, ra, cb, rb), (cb, rb, ca, ra), (cb, ra, ca, rb), (ca, rb, cb, ra)]:
+        for low1, low2 in itertools.product([0, 1], repeat=2):
+            for d in itertools.product([0, 1], repeat=4):
+                l1, l2 = col_letters_of(c1), col_letters_of(c2)
+                ref = [[d[0], l1.lower() if low1 else l1, d[1], r1], [d[2], l2.lower() if low2 else l2, d[3], r2]]
+                for mode in CASE_MODES:
+                    out.append({'kind': 'case', 'mode': mode, 'salt': salt, 'refs': [ref], 'shape': ['ref', 0]})
+                    if mode != 'echo':
+                        out.append({'kind': 'case', 'mode': mode, 'salt': salt, 'refs': [ref], 'shape': ['sum', 0]})
+    # every `$` pattern and letter case of a single one-letter cell
+    for low in (0, 1):
+        for d in itertools.product([0, 1], repeat=2):
+            l1 = col_letters_of(ca)
+            for mode in CASE_MODES:
+                out.append({'kind': 'case', 'mode': mode, 'salt': salt, 'refs': [[[d[0], l1.lower() if low else l1, d[1], ra]]],
+                            'shape': ['ref', 0]})
+    # seeded: 1..3 references with columns of 1..3 letters, each letter in its own case, bare and inside calls
+    for _ in range(500 * sc):
+        mode = rng.choice(CASE_MODES)
+        refs = [gen_ref(rng, mode) for _ in range(rng.choice([1, 1, 2, 2, 3]))]
+        out.append({'kind': 'case', 'mode': mode, 'salt': rng.randrange(1000), 'refs': refs, 'shape': gen_shape(rng, mode, refs)})
+    # the same range written twice in different cases inside one call: `G(a1:B2, A1:b2)`
+    for _ in range(100 * sc):
+        mode = rng.choice(CASE_MODES)
+        r = gen_ref(rng, mode, 'range')
+        r2 = [[k[0], ''.join(rng.choice([ch.lower(), ch.upper()]) for ch in k[1]), k[2], k[3]] for k in r]
+        out.append({'kind': 'case', 'mode': mode, 'salt': rng.randrange(1000), 'refs': [r, r2],
+                    'shape': ['g', ['ref', 0], ['ref', 1]] if mode == 'echo' or rng.random() < 0.5 else ['g', ['sum', 0], ['sum', 1]]})
+    return out
 
 
 def pow_guard(base, exponent):
